@@ -805,6 +805,56 @@ def map_url(li, m):
     return '/service?' + '&'.join('%s=%s' % (k, quote(v, safe=',')) for k, v in p)
 
 
+def _contains(outer, inner):
+    return outer[0] <= inner[0] and outer[1] <= inner[1] and inner[2] <= outer[2] and inner[3] <= outer[3]
+
+
+def _tile_candidates(li, m):
+    """for every level the tile of the grid under the centre of the request bbox: (level, x, y, rect) with rect as
+    Fractions (exact grids) / floats; computed with the grid object only (mapproxy.grid), not with layer.py."""
+    b = [Fraction(v) for v in m['bbox']]
+    cx, cy = (b[0] + b[2]) / 2, (b[1] + b[3]) / 2
+    out = []
+    for l in range(li.grid.levels):
+        try:
+            x, y, _l = li.grid.tile(float(cx), float(cy), l)
+        except Exception:  # noqa
+            continue
+        nx, ny = li.grid.grid_sizes[l]
+        if not (0 <= x < nx and 0 <= y < ny):
+            continue
+        rect = li.gc.tile_rect(x, y, l) if li.exact else li.grid.tile_bbox((x, y, l), limit=False)
+        out.append((l, x, y, [Fraction(v) for v in rect]))
+    return out
+
+
+def _px(m):
+    b = [Fraction(v) for v in m['bbox']]
+    return max((b[2] - b[0]) / m['w'], (b[3] - b[1]) / m['h'])
+
+
+def addressed_tile(li, m):
+    """the tile (level, x, y) of the grid the BBOX of a tiled=true request addresses: all four borders within 1/10 of a
+    request pixel (the larger of the two pixel extents, plus the bbox tolerance of realistic grids); None: no tile."""
+    b = [Fraction(v) for v in m['bbox']]
+    tol = _px(m) / 10 + (Fraction(li.tol, li.gc.S) if li.tol else 0)
+    for l, x, y, rect in _tile_candidates(li, m):
+        if all(abs(b[i] - rect[i]) <= tol for i in range(4)):
+            return (l, x, y)
+    return None
+
+
+def nearest_tile_offsets(li, m):
+    b = [Fraction(v) for v in m['bbox']]
+    px = _px(m)
+    best = None
+    for l, x, y, rect in _tile_candidates(li, m):
+        offs = [float((b[i] - rect[i]) / px) for i in range(4)]
+        if best is None or max(map(abs, offs)) < max(map(abs, best[1])):
+            best = ((l, x, y), offs)
+    return 'none' if best is None else 'tile %r: [%s]' % (best[0], ', '.join('%.3f' % o for o in best[1]))
+
+
 def map_oracle(ctx, li, app, m, url, ans, summ):
     from mapproxy.grid import GridError, NoTiles
     rep = replay_of(li, app, dict(m, bbox=[float(v) for v in m['bbox']]), url, ans, summ)
